@@ -668,7 +668,9 @@ def run(prog, rep, tier):
     try:
         from . import c07
         if hasattr(c07, 'r07_1'):
-            c07.r07_1(prog, rep, rid='R03.4')
+            # only the release side matters here: the late-cancel path
+            # (known finding K2 of C07) hands on twice but releases once
+            c07.r07_1(prog, rep, rid='R03.4', pub_only=True)
     except ImportError:
         pass
 
